@@ -212,3 +212,7 @@ def run(ck, prog, ctx):
             ck.undecided("KIND", "K1/HpoSet::" + name, "no kind-labelled element", where=b.where())
         else:
             ck.ob("KIND", "K1/HpoSet::" + name, True, "HpoSet::%s folds %s annotations only (%d labelled elements)" % (name, kind, len(own)), where=b.where())
+    # container methods of the wrapper types answer with the same-named method of one inner collection
+    ck.rule("WRAPPER", "len / is_empty / contains / get / iter / push ... of a wrapper type delegate to the same-named method of ONE inner collection, un-negated (DESIGN 3.9)")
+    from engines import check_wrappers
+    check_wrappers(ck, "WRAPPER", prog, r"^src/set\.rs$", floor=3)
